@@ -157,8 +157,11 @@ def run(ctx, R, tier):
     header_sized(F, R)
     # 'an error value ... never invented samples': an error of the decoder (a failed seek included) ends the stream - it is
     # propagated out of run() like a decode error (the C10 rule); a seek request is written whatever position the handle last saw
-    from .c10 import err_propagation
+    from .c10 import err_propagation, ends_only_when_done
     err_propagation(F, R)
+    # 'streaming yields the same frames as loading': decoding goes on for as long as the sound can still play them - the
+    # thread ends only for a Stopped sound, at the end of the audio, or when the audio side is gone
+    ends_only_when_done(F, R, rule='B.C18.stream')
     decode_arith(ctx, R)
     chunk_start(F, R)
     from .c07 import write_unconditional
